@@ -210,12 +210,21 @@ def run(ck):
     ck.extra["genuine_aggregate_commit_cases"] = {"accepted": sum(1 for r in aggc if r["impl"]["class"] == "ok"),
                                                   "rejected": sum(1 for r in aggc if r["impl"]["class"] != "ok"),
                                                   "at_next_params_bound": sum(1 for r in aggc if "next BFT parameters" in r["alt"])}
+    ck.extra["generator_key_rotations"] = sum(1 for r in recs if r["alt"].startswith("none (valid successor rotating"))
+    ck.extra["partial_signer_commit_cases"] = sum(1 for r in recs if "signer weight" in r["alt"])
     ck.extra["parameter_changing_successors"] = sum(1 for r in recs if r["alt"].startswith("none") and r["xe"]["params_changed"])
     for name, ok in (("a genuine aggregate commit on each side of the next-BFT-parameters bound",
                       any("next BFT parameters-1" in r["alt"] and r["impl"]["class"] == "ok" for r in aggc)
                       and any("exactly the height of the next BFT parameters" in r["alt"] for r in aggc)),
                      ("a valid successor that changes the BFT parameters, with the old validatorsHash as an alteration",
-                      any(r["alt"] == "validatorsHash of the parameters before the change" for r in recs))):
+                      any(r["alt"] == "validatorsHash of the parameters before the change" for r in recs)),
+                     ("a generator-key rotation (same addresses, order, weights) followed by blocks signed with the new and the retired key",
+                      any(r["alt"] == "signed with the generator's retired key" for r in recs)
+                      and any(r["alt"].startswith("none (valid successor rotating") and r["impl"]["class"] == "ok" for r in recs)),
+                     ("a genuine aggregate commit whose signer weight is at or above the precommit threshold but below the certificate "
+                      "threshold, and one exactly at the certificate threshold",
+                      any("below the certificate threshold" in r["alt"] for r in recs)
+                      and any("equal to the certificate threshold" in r["alt"] and r["impl"]["class"] == "ok" for r in recs))):
         ck.obligations += 1
         if ok:
             ck.discharged += 1
